@@ -8,8 +8,8 @@ from harness import zones as Z
 
 ID = "C01"
 BACKENDS = ("py", "rs")
-GEN_MODULES = ()
-MIN_THEOREMS = 9
+GEN_MODULES = ("DTConv",)
+MIN_THEOREMS = 23
 US = D.US
 YMAX = Z.YMAX_QUICK
 PATHS = ("in_tz", "in_timezone", "astimezone", "convert")
